@@ -210,6 +210,9 @@ Definition c09_step_ok (s : wstep) : bool :=
                          | _ => false end) (committed r (sn_meta b)) &&
       frame_ok (fun k => negb (belongs r k)) (sn_meta b) (sn_meta a) &&
       frame_ok (fun _ => true) (sn_vmeta b) (sn_vmeta a)
+  | ODeleteEntries r ps, WRes false, Some (b, _) =>
+      (* delete-files may refuse only a repository that does not exist *)
+      negb (mhas (GetArchivePathToRepoDescriptor r) (sn_meta b))
   | _, _, _ => true
   end.
 (* sequentially, creating a name succeeds exactly when it does not exist yet *)
